@@ -36,4 +36,20 @@ set_option maxRecDepth 16384 in
 /-- the model's protocol table is the source's `defaultProtocols()` -/
 theorem defaultProtocols : Generated.defaultProtocols = Http.protocols.map (fun kv => (kv.1, Http.describe kv.2)) := by decide
 
+/-! constructors, accessors and small helpers -/
+theorem x_drpchttp_context_Context : Generated.fp_drpchttp_context_Context = Expected.fp_drpchttp_context_Context := by decide
+theorem x_drpchttp_encoding_JSONMarshal : Generated.fp_drpchttp_encoding_JSONMarshal = Expected.fp_drpchttp_encoding_JSONMarshal := by decide
+theorem x_drpchttp_encoding_JSONUnmarshal : Generated.fp_drpchttp_encoding_JSONUnmarshal = Expected.fp_drpchttp_encoding_JSONUnmarshal := by decide
+theorem x_drpchttp_encoding_base64Read : Generated.fp_drpchttp_encoding_base64Read = Expected.fp_drpchttp_encoding_base64Read := by decide
+theorem x_drpchttp_encoding_normalWrite : Generated.fp_drpchttp_encoding_normalWrite = Expected.fp_drpchttp_encoding_normalWrite := by decide
+theorem x_drpchttp_encoding_protoMarshal : Generated.fp_drpchttp_encoding_protoMarshal = Expected.fp_drpchttp_encoding_protoMarshal := by decide
+theorem x_drpchttp_encoding_protoUnmarshal : Generated.fp_drpchttp_encoding_protoUnmarshal = Expected.fp_drpchttp_encoding_protoUnmarshal := by decide
+theorem x_drpchttp_handler_NewWithOptions : Generated.fp_drpchttp_handler_NewWithOptions = Expected.fp_drpchttp_handler_NewWithOptions := by decide
+theorem x_drpchttp_options_WithProtocol : Generated.fp_drpchttp_options_WithProtocol = Expected.fp_drpchttp_options_WithProtocol := by decide
+theorem x_drpchttp_options_defaultProtocols : Generated.fp_drpchttp_options_defaultProtocols = Expected.fp_drpchttp_options_defaultProtocols := by decide
+theorem x_drpchttp_protocol_grpc_web_grpcWebProtocol_NewStream : Generated.fp_drpchttp_protocol_grpc_web_grpcWebProtocol_NewStream = Expected.fp_drpchttp_protocol_grpc_web_grpcWebProtocol_NewStream := by decide
+theorem x_drpchttp_protocol_grpc_web_grpcWebStream_Close : Generated.fp_drpchttp_protocol_grpc_web_grpcWebStream_Close = Expected.fp_drpchttp_protocol_grpc_web_grpcWebStream_Close := by decide
+theorem x_drpchttp_protocol_grpc_web_grpcWebStream_MsgRecv : Generated.fp_drpchttp_protocol_grpc_web_grpcWebStream_MsgRecv = Expected.fp_drpchttp_protocol_grpc_web_grpcWebStream_MsgRecv := by decide
+theorem x_drpchttp_protocol_twirp_twirpProtocol_NewStream : Generated.fp_drpchttp_protocol_twirp_twirpProtocol_NewStream = Expected.fp_drpchttp_protocol_twirp_twirpProtocol_NewStream := by decide
+
 end Drpc.Tie.C14
